@@ -439,7 +439,7 @@ impl Property for P {
         "C08"
     }
     fn rule(&self) -> String {
-        "Content-Length N (stratified sweep of 1..=70000 plus u32/u64 extremes): payload of N bytes followed by the head of a next response, delivered under random arrival schedules and output sizes (0, 1, tiny, exact, big); every read must move exactly min(window, space, remaining) bytes unchanged, never more than N in total, complete <=> N delivered, a read after completion takes nothing. Close-delimited: every offered byte passes unchanged, can_proceed() at every point, leaving at any time leads to Cleanup with must-close and a reason. The length field stands among other fields (empty values before it, fields after it), in three spellings of its name and with optional whitespace. class = (window vs remaining) x (space vs window).".into()
+        "Content-Length N (stratified sweep of 1..=70000 plus u32/u64 extremes): payload of N bytes followed by the head of a next response, delivered under random arrival schedules and output sizes (0, 1, tiny, exact, big); every read must move exactly min(window, space, remaining) bytes unchanged, never more than N in total, complete <=> N delivered, a read after completion takes nothing. Close-delimited: every offered byte passes unchanged, can_proceed() at every point, leaving at any time leads to Cleanup with must-close and a reason. The length field stands among other fields (empty values before it, fields after it), in three spellings of its name and with optional whitespace. class = (window vs remaining) x (space vs window). Requests are plain, HTTP/1.0 or a refused CONNECT; a third of the heads arrive in two pieces (for redirects right behind the Location line). overflowing-length: values above u64::MAX are refused or never complete early. CONNECT 200/204 count among the body-less responses.".into()
     }
     fn assumptions(&self) -> Vec<String> {
         vec!["N = 0 never reaches the body state (C06) and is not part of this workload".into()]
